@@ -18,7 +18,7 @@ fn minimise_impl(trace: &Trace, target: &Violation, test: &mut dyn FnMut(&Trace)
     // the budget is counted in executed ops, so that a 70,000-op trace (an endurance run)
     // costs no more to minimise than a 70-op one
     let spent = std::cell::Cell::new(0u64);
-    const BUDGET_OPS: u64 = 300_000_000;
+    const BUDGET_OPS: u64 = 120_000_000;
     let inner = test;
     let mut test = |t: &Trace| -> Option<Violation> {
         spent.set(spent.get() + t.ops.len() as u64 + 1);
